@@ -27,7 +27,7 @@ PredJ(r) == [sizeU |-> Size(Enc("U", r)),
              probes |-> LET P == SeqOf(Probes(r)) IN [j \in 1..Len(P) |-> [i |-> P[j], alive |-> P[j] \in Alive(r)]]]
 
 EmitRec == PrintT(<<"VFT", ToJson([k |-> "rec", c |-> c', rec |-> RecJ(rec'),
-                                   pred |-> IF c'.k = "dense" THEN [sizeU |-> -1, sizeC |-> -1, codes |-> <<>>, probes |-> <<>>] ELSE PredJ(rec')])>>)
+                                   pred |-> IF c'.k \in {"dense", "bulk", "wide"} THEN [sizeU |-> -1, sizeC |-> -1, codes |-> <<>>, probes |-> <<>>] ELSE PredJ(rec')])>>)
 
 SetJ == [r \in SnapIds |-> IF truth'[r] = NoRec THEN RecJ(NilRec) ELSE RecJ(truth'[r].rec)]
 StepJ == [a |-> c'.k, x |-> c'.x, y |-> c'.y, open |-> db'.open, bit |-> db'.bit, height |-> blk', reload |-> (c'.k = "Open" /\ file.exists),
